@@ -29,7 +29,7 @@ def run(ck: Check) -> None:
     cases = []
     for i in range(ck.n(700, 160)):
         a = rng.choice(CLOCKS)
-        b = a + dt.timedelta(seconds=rng.choice([0, 0, 0.5, 1, 2, 61]))
+        b = a      # one instant for the whole call: how many times (and in which order) the library reads the clock is its own business
         ks = [gen.key(j) for j in rng.sample(range(8), rng.randint(0, 3))]
         kk = [gen.key(j) for j in rng.sample(range(8), rng.randint(0, 2))]
         if i % 2 == 0:
